@@ -1,5 +1,12 @@
 import DepsDev.Model.Semver.Compare
 
+/-!
+# C02 — Maven, part 2: the trimming loop of `mavenExtension.init` as a stack machine
+
+`mavenTrim` (an index machine with fuel, mirroring the Go loops) equals `trimF`: push the next
+element; when nothing or a `-` element follows, pop "empty" elements (`0`, `ga`, `final`,
+`release`) off the stack while more than one element is left. For all lists.
+-/
 namespace DepsDev.Proofs.C02Mvn
 open DepsDev DepsDev.Semver
 
